@@ -44,7 +44,7 @@ PROPS = {
         units=[
         unit("c04", "route", ROUTE_COMMON + ["route/c04_test.go"], "^TestVerifC04"),
         route_sched("c04-sched", "^TestVerifC04Sched", shards={"quick": 1, "thorough": 8}),
-        unit("c04-listeners", ".", MAIN_COMMON + ["main/c19_test.go", "main/c16_test.go", "main/c04_listener_test.go"], "^TestVerifC04Listeners", engines=["vhook"], rewrite=[{"files": ["transport/transport.go"], "opts": ["-sel", "net.Dialer=vhook.Dialer"]}]),
+        unit("c04-listeners", ".", MAIN_COMMON + ["main/c19_test.go", "main/c16_test.go", "main/c18_sig_test.go", "main/c04_listener_test.go"], "^TestVerifC04Listeners", engines=["vhook"], rewrite=[{"files": ["transport/transport.go"], "opts": ["-sel", "net.Dialer=vhook.Dialer"]}]),
     ], layers={"quick": ["c04-add", "c04-weightcmd", "c04-sched", "c04-listeners"], "thorough": ["c04-add", "c04-weightcmd", "c04-sched", "c04-listeners"]}),
     "C05": dict(level="model_checking", engine="xstate",
         technique="explicit-state BFS over route-command scripts with a reference interpreter; each transition rebuilds the real table with NewTable and compares",
@@ -163,8 +163,8 @@ PROPS = {
         level_note="Expressibility is decided by an independent predicate (name without white space, finite numeric weight, no double quote/newline in tags or options). Tags containing a comma or surrounding white space, and a redirect option without URL, are left open.",
         units=[
         unit("c14", "registry/consul", ["consul/c14_test.go"], "^TestVerifC14Reg"),
-        unit("c14-sched", "registry/consul", ["consul/c14_test.go", "consul/c14_sched_test.go"], "^TestVerifC14Sched", engines=SCHED, race=True, sched_env={"GOMAXPROCS": "1"}, shards={"quick": 2, "thorough": 8},
-             rewrite=[{"files": ["registry/consul/service.go"], "opts": ["-go", "-chan", "-stmt", "-sortrange=m", "-only", "makeConfig,serviceConfig"]}, {"files": ["registry/consul/routecmd.go"], "opts": ["-stmt", "-only", "build"]}]),
+        unit("c14-sched", "registry/consul", ["consul/c14_test.go", "consul/c14_sched_test.go"], "^TestVerifC14Sched", engines=SCHED + ["vhook"], race=True, sched_env={"GOMAXPROCS": "1"}, shards={"quick": 2, "thorough": 8},
+             rewrite=[{"files": ["registry/consul/service.go"], "opts": ["-go", "-chan", "-stmt", "-sortrange=m", "-only", "makeConfig,serviceConfig", "-sel", "time.Sleep=vhook.Sleep"]}, {"files": ["registry/consul/routecmd.go"], "opts": ["-stmt", "-only", "build", "-sel", "time.Sleep=vhook.Sleep"]}]),
     ], layers={"quick": ["c14-registrations", "c14-multi", "c14-sched"], "thorough": ["c14-registrations", "c14-multi", "c14-sched"]}),
     "C01": dict(level="model_checking", engine="xstate",
         technique="explicit-state BFS over registry histories through the real consul watchers + watchBackend against a fake Consul HTTP API; bounded-exhaustive check sequences for the health rule",
@@ -200,10 +200,11 @@ PROPS = {
         level_text="(calls) the product call kind x request/reply message sequences (<=3 payloads of empty/1B/70kB) x metadata shapes (custom, binary, dsthost matching/not/twice) x backend outcomes x headers/trailers is executed through grpc.Server built from main.newGrpcProxy against instrumented TestService backends and compared for identity; no-route gives NotFound without contacting a backend. (histories) every history up to depth 3 (thorough 4) of {call A, call B, remove/add B, clean-up pass, restart B}: reuse of one connection per backend, drop after leaving the table, success after re-adding.",
         level_note="grpc-go's own goroutines are not under a scheduler: the property does not quantify over schedules. Asynchronous effects (connection closed at the backend) are awaited with a 10 s guard. A TLS (grpcs) backend appears only in the history layer (redeployment of B with the other transport).",
         units=[
-        unit("c16", ".", MAIN_COMMON + ["main/c16_test.go"], "^TestVerifC16", engines=["vhook"], rewrite=[{"files": ["proxy/grpc_handler.go"], "opts": ["-sel", "time.Sleep=vhook.ScaledSleep", "-sel", "time.NewTicker=vhook.NewTicker", "-sel", "time.Tick=vhook.Tick", "-sel", "time.After=vhook.After", "-sel", "time.NewTimer=vhook.NewTimer", "-sel", "time.AfterFunc=vhook.AfterFunc"]}]),
-        unit("c16-pool", "proxy", PROXY_COMMON + ["proxy/c16_pool_test.go"], "^TestVerifC16Pool", engines=SCHED + ["vhook"], sched_env={"GOMAXPROCS": "1"}, shards={"quick": 1, "thorough": 8},
+        unit("c16", ".", MAIN_COMMON + ["main/c16_test.go", "main/c18_sig_test.go"], "^TestVerifC16Calls", engines=["vhook"], rewrite=[{"files": ["proxy/grpc_handler.go"], "opts": ["-sel", "time.Sleep=vhook.ScaledSleep", "-sel", "time.NewTicker=vhook.NewTicker", "-sel", "time.Tick=vhook.Tick", "-sel", "time.After=vhook.After", "-sel", "time.NewTimer=vhook.NewTimer", "-sel", "time.AfterFunc=vhook.AfterFunc"]}]),
+        unit("c16-listeners", ".", MAIN_COMMON + ["main/c16_test.go", "main/c18_sig_test.go"], "^TestVerifC16Listeners", engines=["vhook"], rewrite=[{"files": ["proxy/grpc_handler.go"], "opts": ["-sel", "time.Sleep=vhook.ScaledSleep", "-sel", "time.NewTicker=vhook.NewTicker", "-sel", "time.Tick=vhook.Tick", "-sel", "time.After=vhook.After", "-sel", "time.NewTimer=vhook.NewTimer", "-sel", "time.AfterFunc=vhook.AfterFunc"]}]),
+        unit("c16-pool", "proxy", PROXY_COMMON + ["proxy/c16_pool_test.go"], "^TestVerifC16Pool", engines=SCHED + ["vhook"], race=True, sched_env={"GOMAXPROCS": "1"}, shards={"quick": 1, "thorough": 8},
              rewrite=[{"files": ["proxy/grpc_handler.go"], "opts": ["-imports", "-go", "-stmt", "-sortrange=p.connections", "-only", "newGrpcConnectionPool,Get,Set,newConnection,cleanup", "-sel", "time.Sleep=vhook.ScaledSleep"]}]),
-    ], layers={"quick": ["c16-calls", "c16-history", "c16-pool"], "thorough": ["c16-calls", "c16-history", "c16-pool"]}),
+    ], layers={"quick": ["c16-calls", "c16-history", "c16-listeners", "c16-pool"], "thorough": ["c16-calls", "c16-history", "c16-listeners", "c16-pool"]}),
 }
 
 LAYER_UNIT = {"c06-sched": "c06", "c03-select": "c03", "c03-lookuphost": "c03", "c04-add": "c04", "c04-weightcmd": "c04", "c05-commands": "c05",
